@@ -306,8 +306,8 @@ namespace foonathan
             }
 
         private:
-            unsigned short derived_size_      = 0,
-                           derived_alignment_ = 0; // use unsigned short here to save space
+            // the full size: it is passed on to the allocator when the object is released
+            std::size_t derived_size_ = 0, derived_alignment_ = 0;
         };
     } // namespace memory
 } // namespace foonathan
